@@ -324,6 +324,8 @@ def h_case(case):
     else:
         d = core.fresh_drv("rel") if case.get("fresh") else core.get_drv("rel")
     d.reset()
+    if case.get("shuffle"):
+        d.cmd("heapshuffle", str(case["shuffle"]))      # small free lists filled so that the next allocations come at descending addresses
     names = [case["a"]] + ([case["b"]] if case.get("b") else [])
     slots = []
     prog = [0] * len(names)
@@ -375,17 +377,23 @@ def part_h(tier, ev, findings, pool, dl, stats):
         base.setdefault(a, k)
     ev.bound("lone-instance baselines: %d inputs x {fresh process x2, used process}" % len(names), True, cases=len(base_cases))
     pert_cases = [{"a": a, "b": None, "order": "0" * n, "fresh": True, "perturb": p} for a in names for p in (85, 170)]
+    pert_cases += [{"a": a, "b": None, "order": "0" * n, "fresh": True, "perturb": 85, "shuffle": k} for a in names for k in (8, 64)]
     for res in pool.map(h_case, pert_cases, 1, ordered=True):
         ev.traces += 1
         ev.transitions += res["ops"]
         a = res["case"]["a"]
         ev.state(res["keys"][0])
         if res["keys"][0] != base[a]:
+            if res["case"].get("shuffle"):
+                problems.setdefault("result of a fresh instance depends on where its memory blocks lie: input=%s" % a,
+                                    ("input %s: a lone fresh instance observes something different when the allocator's small free lists were filled "
+                                     "beforehand (next blocks at descending addresses, as after other instances were created and destroyed)" % a, res))
+                continue
             problems.setdefault("result of a fresh instance depends on the content of newly allocated memory: input=%s" % a,
                                 ("input %s: a lone fresh instance observes something different when malloc hands out blocks filled with byte %d "
                                  "instead of fresh zero pages (as after another instance was destroyed): some state is not initialised" % (a, res["case"]["perturb"]), res))
     core.close_drvs()
-    ev.bound("heap-content differential: %d inputs x newly allocated memory filled with 0x55 / 0xAA (MALLOC_PERTURB_)" % len(names), True, cases=len(pert_cases))
+    ev.bound("heap differential: %d inputs x {newly allocated memory filled with 0x55 / 0xAA (MALLOC_PERTURB_), small free lists pre-filled with 8 / 64 rounds of blocks (next allocations at descending addresses)}" % len(names), True, cases=len(pert_cases))
     pairs = [(a, b) for a in names for b in names] if tier == "thorough" else [(a, b) for i, a in enumerate(names) for b in names[i:]]
     orders = list(interleavings(n))
     cases = [{"a": a, "b": b, "order": o} for (a, b) in pairs for o in orders]
